@@ -404,6 +404,15 @@ func (s *Scope) resolveSort(name string) (string, types.Type) {
 	if strings.HasPrefix(name, "Array<") {
 		return userSort(name), nil
 	}
+	if strings.HasPrefix(name, "keyof(") && strings.HasSuffix(name, ")") {
+		v, ok := s.lookup(name[len("keyof(") : len(name)-1])
+		if ok && v.GoT != nil {
+			if m, ok := v.GoT.Underlying().(*types.Map); ok {
+				return s.eng.sorts.sortOf(m.Key()).Sort, m.Key()
+			}
+		}
+		s.fail("%s: not a map-typed variable", name)
+	}
 	if gt := s.eng.goTypeOf(name); gt != nil {
 		return s.eng.sorts.sortOf(gt).Sort, gt
 	}
